@@ -1,5 +1,5 @@
 #!/usr/bin/env python3
-"""seed_verify.py <property-id> <patch.diff> [--no-suite]
+"""seed_verify.py <property-id> <patch.diff> [--no-suite|--suite-only|--check-only] [--checks=C01,C02,..]
 
 Confirms a seeded change and runs the property's check against it:
  1. scratch worktree of /repo HEAD (outside /repo and /verif), patch applied, `go build ./...`, pinned suite
@@ -51,16 +51,25 @@ def main():
         if rc != 0:
             res["error"] = "patch does not apply to /repo: " + out[-300:]
         else:
-            rc, out = sh("tools/check %s --tier quick" % pid, cwd=ROOT, timeout=3600)
-            lines = [l[:300] for l in out.strip().split("\n")]
-            res["check_exit"] = rc
-            res["check_tail"] = [l for l in lines if l.startswith("VIOLATION") or l.startswith(pid)][-6:]
-            res["caught"] = rc != 0 and any(l.startswith("VIOLATION property=%s" % pid) for l in lines)
-            res["no_failing_input_found"] = any("no-failing-input-found" in l for l in lines)
-            # keep the replay of the first violation next to the patch
-            m = next((re.search(r"replay=(\S+)", l) for l in lines if l.startswith("VIOLATION")), None)
-            if m and os.path.exists(m.group(1)):
-                res["replay"] = m.group(1)
+            also = [a.split("=", 1)[1].split(",") for a in sys.argv if a.startswith("--checks=")]
+            ids = also[0] if also else [pid]
+            res["checks"] = {}
+            for cid in ids:
+                rc, out = sh("tools/check %s --tier quick" % cid, cwd=ROOT, timeout=3600)
+                lines = [l[:300] for l in out.strip().split("\n")]
+                res["checks"][cid] = {"exit": rc, "tail": [l for l in lines if l.startswith("VIOLATION") or l.startswith(cid)][-6:]}
+                if cid == pid or len(ids) == 1:
+                    res["check_exit"] = rc
+                    res["check_tail"] = res["checks"][cid]["tail"]
+                    res["caught"] = rc != 0 and any(l.startswith("VIOLATION property=%s" % cid) for l in lines)
+                    res["no_failing_input_found"] = any("no-failing-input-found" in l for l in lines)
+                    # keep the replay of the first violation next to the patch
+                    m = next((re.search(r"replay=(\S+)", l) for l in lines if l.startswith("VIOLATION")), None)
+                    if m and os.path.exists(m.group(1)):
+                        res["replay"] = m.group(1)
+                        try: shutil.copy(m.group(1), patch + ".%s.replay.json" % cid)
+                        except Exception: pass
+            res["alarms"] = sorted(c for c, v in res["checks"].items() if v["exit"] != 0)
     finally:
         sh("git -C /repo checkout -- .")
         sh("git -C /repo clean -fdq")
